@@ -1,13 +1,111 @@
 /-
-  Driver/Doc — command(s) of the `doc` family (stub: filled in by the owner of the corresponding properties).
+  Driver/Doc — commands of the `doc` family (save / from_file documents, C12) and the `toml` family
+  (component files, C13).
+
+    {"cmd":"doc","op":"save","ver":V,"topo":[names],"sys":DESC}                → {"doc": PV}
+    {"cmd":"doc","op":"load","lib":V,"doc":PV,"topo2":[names]?}                 → {"ok": SYS, "doc2": PV?} | {"err": …}
+    {"cmd":"doc","op":"roundtrip","ver":V,"topo":[…],"topo2":[…]?,"sys":DESC}   → {"doc": PV, "load": {"ok"|"err"}, "doc2": PV?}
+    {"cmd":"toml","op":"load","kind":K,"name":N,"config":PV}                    → {"ok": COMP} | {"err": …}
+    {"cmd":"toml","op":"ctor","kind":K,"name":N,"args":PV}                      → {"ok": COMP} | {"err": …}
+    {"cmd":"toml","op":"schema"}                                                → the `_cparams` tables of the model
+
+  DESC = {"name", "comps":[{"kind","name","args":PV,"parents":[names],"group","rail","pconf":PV|null}], "phases":PV}
 -/
 import SysLoss.Driver.Wire
+import SysLoss.Model.Persist
 
 open Lean
 
 namespace SysLoss
+section
+variable {α : Type} [Add α] [Sub α] [Mul α] [Div α] [Neg α] [LT α] [DecidableLT α]
+  [OfNat α 0] [OfNat α 1] [OfNat α 2] [OfNat α 100] [OfNat α 1000000] [Wire α]
+
+def strList (a : Array Json) : List String :=
+  a.toList.filterMap fun j => match j with | .str s => some s | _ => none
+
+def compOut (c : Comp α) : Json :=
+  Json.mkObj [("kind", c.kind.tomlName), ("type", c.kind.ctype.name), ("name", c.name),
+    ("params", pvOut (.dict c.params)), ("applims", pvOut (applims c)), ("diode", c.diode),
+    ("limits", .arr (c.limits.map fun (k, l) => Json.arr #[.str k, Wire.out l.1, Wire.out l.2]).toArray)]
+
+def nodeOut (n : Node α) : Json :=
+  (compOut n.comp).setObjVal! "parents" (.arr (n.parents.map Json.str).toArray)
+
+def sysOut (s : SysDesc α) : Json :=
+  Json.mkObj [("name", s.name), ("nodes", .arr (s.nodes.map nodeOut).toArray), ("phases", pvOut s.phases),
+    ("phase_conf", pvOut s.phaseConf), ("groups", pvOut s.groups), ("rails", pvOut s.rails)]
+
+/-- parse a description; a constructor error is reported with the component's name -/
+def descOf (j : Json) : Except (String × Err) (SysDesc α) := do
+  let mut parts : List (Node α × String × String × PV α) := []
+  for cj in jArr j "comps" do
+    let name := jStr cj "name"
+    match kindOf (jStr cj "kind") with
+    | none => throw (name, .other "bad-kind")
+    | some k =>
+      match mkComp k name (argsOf (α := α) ((cj.getObjVal? "args").toOption.getD .null)) with
+      | .error e => throw (name, e)
+      | .ok c =>
+        let pconf : PV α := match jObj? cj "pconf" with | some p => pvOf p | none => .dict []
+        parts := parts ++ [({ comp := c, parents := strList (jArr cj "parents") },
+                            jStr cj "group", jStr cj "rail", pconf)]
+  let phases : PV α := match jObj? j "phases" with | some p => pvOf p | none => .dict []
+  pure (SysDesc.ofParts (jStr j "name") parts phases)
+
+def resOut (r : Except Err (SysDesc α)) (topo2 : Option (List String)) (ver : String) : List (String × Json) :=
+  match r with
+  | .error e => [("load", Json.mkObj [("err", errOut e)])]
+  | .ok s =>
+    [("load", Json.mkObj [("ok", sysOut s)])] ++
+    (match topo2 with
+     | some t => [("doc2", pvOut (save ver t s))]
+     | none => [])
+
+def topo2Of (j : Json) : Option (List String) :=
+  match j.getObjVal? "topo2" with
+  | .ok (.arr a) => some (strList a)
+  | _ => none
+
+def cmdDocAt (j : Json) : Json :=
+  let op := jStr j "op"
+  match jStr j "cmd", op with
+  | "doc", "save" | "doc", "roundtrip" =>
+    (match descOf (α := α) ((j.getObjVal? "sys").toOption.getD .null) with
+     | .error (n, e) => Json.mkObj [("bad-desc", n), ("err", errOut e)]
+     | .ok s =>
+       let ver := jStr j "ver"
+       let doc := save ver (strList (jArr j "topo")) s
+       if op == "save" then Json.mkObj [("doc", pvOut doc)]
+       else Json.mkObj ([("doc", pvOut doc)] ++ resOut (fromFile ver doc) (topo2Of j) ver))
+  | "doc", "load" =>
+    let lib := jStr j "lib"
+    let doc : PV α := pvOf ((j.getObjVal? "doc").toOption.getD .null)
+    Json.mkObj (resOut (fromFile lib doc) (topo2Of j) lib)
+  | "toml", "load" | "toml", "ctor" =>
+    (match kindOf (jStr j "kind") with
+     | none => Json.mkObj [("bad-op", "kind")]
+     | some k =>
+       let r : Except Err (Comp α) :=
+         if op == "load" then fromToml k (jStr j "name") (pvOf ((j.getObjVal? "config").toOption.getD .null))
+         else mkComp k (jStr j "name") (argsOf ((j.getObjVal? "args").toOption.getD .null))
+       match r with
+       | .ok c => Json.mkObj [("ok", compOut c)]
+       | .error e => Json.mkObj [("err", errOut e)])
+  | "toml", "schema" =>
+    Json.mkObj (allKinds.map fun k => (k.tomlName, Json.mkObj [
+      ("generic", k.genericLoader),
+      ("schema", .arr (k.schema.map fun sk => Json.mkObj [("key", sk.key), ("opt", sk.opt),
+          ("typ", .arr (sk.typ.map fun t => Json.str t.name).toArray),
+          ("def", match sk.dflt with | some .zero => Json.str "0.0" | some .no => Json.str "False" | none => .null)]).toArray),
+      ("ctor", .arr (k.ctorKeys.map fun (key, d) => Json.arr #[.str key,
+          match d with | some .zero => Json.str "0.0" | some .no => Json.str "False" | none => .null]).toArray),
+      ("limits", .arr (k.limitKeys.map Json.str).toArray)]))
+  | c, o => Json.mkObj [("bad-op", c ++ "/" ++ o)]
+
+end
 
 def cmdDoc (j : Json) : Json :=
-  Json.mkObj [("bad-op", "unimplemented: " ++ jStr j "cmd")]
+  if jStr j "carrier" == "float" then cmdDocAt (α := Float) j else cmdDocAt (α := Rat) j
 
 end SysLoss
